@@ -10,6 +10,7 @@ import (
 	"os"
 	"os/exec"
 	"sync"
+	"sync/atomic"
 	"time"
 
 	flags "github.com/jessevdk/go-flags"
@@ -327,6 +328,8 @@ func countLines(path string) int {
 
 // cmdRun shards the scenarios over worker processes; a worker that dies or
 // stalls is recorded against the scenario it was running and restarted after it.
+var confirmedHangs int32
+
 func cmdRun(args []string) {
 	fs := flag.NewFlagSet("run", flag.ExitOnError)
 	treesF := fs.String("trees", "", "")
@@ -394,7 +397,16 @@ func cmdRun(args []string) {
 					die(2, "worker ended early without error")
 				}
 				// the scenario at lo killed or hung the process: confirmed by running it once more on its own with six times
-				// the patience (a loaded machine must not turn into a reported hang); only a second death or stall is recorded
+				// the patience (a loaded machine must not turn into a reported hang); only a second death or stall is recorded.
+				// Once a few hangs are confirmed the code under test evidently hangs: later stalls are taken as they come.
+				if atomic.LoadInt32(&confirmedHangs) >= 4 {
+					rec := famOf(scs[lo]).crash(scs[lo], killed, "process died: "+fmt.Sprint(werr))
+					fo, _ := os.OpenFile(part, os.O_APPEND|os.O_CREATE|os.O_WRONLY, 0o644)
+					fo.Write(marshalLine(rec))
+					fo.Close()
+					lo++
+					continue
+				}
 				if line, ok := runAlone(self, *treesF, *scenF, lo, part, 6**stall); ok {
 					fo, _ := os.OpenFile(part, os.O_APPEND|os.O_CREATE|os.O_WRONLY, 0o644)
 					fo.Write(line)
@@ -402,6 +414,7 @@ func cmdRun(args []string) {
 					lo++
 					continue
 				}
+				atomic.AddInt32(&confirmedHangs, 1)
 				rec := famOf(scs[lo]).crash(scs[lo], killed, "process died: "+fmt.Sprint(werr))
 				fo, _ := os.OpenFile(part, os.O_APPEND|os.O_CREATE|os.O_WRONLY, 0o644)
 				fo.Write(marshalLine(rec))
